@@ -208,10 +208,25 @@ Definition run_case (en : entry) (inp : list byte) (param : N) (brk : option N) 
   end.
 
 (* ---- cache histories ---- *)
-Inductive cop := OpInsert (k : N) (v : list byte) | OpGet (k : N) | OpContains (k : N) | OpLen | OpFull.
+Inductive cop := OpInsert (k : N) (v : list byte) | OpGet (k : N) | OpContains (k : N) | OpLen | OpFull
+                | OpGetValueTx (k : N).
+
+(* SliceCache::get_value::<bsl::Transaction>: windows are relative to the start of the stored value *)
+Definition getvalue_item (c : cache) (k : N) : option item :=
+  match get_value tx_from_stored c k with
+  | COk None => Some ("v", [0])
+  | COk (Some (Ok t)) =>
+      match tx_version t, tx_locktime t, tx_txid_preimage t, tx_weight t with
+      | Ok v, Ok l, Ok (a, b, cc), Ok w =>
+          Some ("v", [1; s_len (tx_slice t); zv v; l] ++ wl (pwin a) ++ wl (pwin b) ++ wl (pwin cc) ++ [w])
+      | _, _, _, _ => Some ("v", [2])
+      end
+  | COk (Some _) => Some ("v", [2])      (* from_bytes unwraps the parse result: panics on other bytes *)
+  | _ => None
+  end.
 
 Definition op_key (o : cop) : option N :=
-  match o with OpInsert k _ | OpGet k | OpContains k => Some k | _ => None end.
+  match o with OpInsert k _ | OpGet k | OpContains k | OpGetValueTx k => Some k | _ => None end.
 
 Definition add_key (k : N) (ks : list N) : list N :=
   if existsb (N.eqb k) ks then ks else ks ++ [k].
@@ -254,6 +269,11 @@ Fixpoint run_ops (c : cache) (keys : list N) (ops : list cop) : list item :=
           match contains c k with
           | COk b => ("c", [bl b]) :: observe c keys' ++ run_ops c keys' rest
           | _ => [("panic", [])]
+          end
+      | OpGetValueTx k =>
+          match getvalue_item c k with
+          | Some it => it :: observe c keys' ++ run_ops c keys' rest
+          | None => [("panic", [])]
           end
       | OpLen => ("l", [clen c]) :: observe c keys' ++ run_ops c keys' rest
       | OpFull => ("f", [bl (cfull c)]) :: observe c keys' ++ run_ops c keys' rest
